@@ -191,7 +191,7 @@ class HTTPChannel(wasyncore.dispatcher):
             self.current_outbuf_count += num_bytes
             self.total_outbufs_len += num_bytes
             self.sent_continue = True
-            self._flush_some(do_close=do_close)
+            self._flush_exception(self._flush_some, do_close=do_close)
 
     def received(self, data):
         """
